@@ -193,8 +193,14 @@ def gapInvalid : Option (Ext Rat) → Bool
   | some _ => true
   | none => false
 
-/-- `r` = answer under the options, `r0` = answer of the same entry point without options. -/
-def checkLabel (lm : LinModel (Ext Rat)) (o : MilpOpts) (r r0 : ImplRes (Ext Rat)) : Sexp :=
+/-- `r` = answer under the options, `r0` = answer of the same entry point without options, `rawStatus` = the status
+microlp itself reports for the same problem and options (mirror call: `optimal`, `feasible`, `interrupted`, or
+`unknown` when the mirror did not return a solution).
+
+Root-cause signature of the known defect (kind `milp-limit-status-not-read`): a time limit was set, the unlimited
+answer of the same entry point is right, and microlp says the search did NOT finish (`feasible` / `interrupted`) —
+yet rooc answered `Ok` + `Optimal`. -/
+def checkLabel (lm : LinModel (Ext Rat)) (o : MilpOpts) (r r0 : ImplRes (Ext Rat)) (rawStatus : String) : Sexp :=
   match exact lm with
   | .error why => okS [.atom "skipped", .atom why]
   | .ok (p, sol) =>
@@ -207,7 +213,10 @@ def checkLabel (lm : LinModel (Ext Rat)) (o : MilpOpts) (r r0 : ImplRes (Ext Rat
     | .err "Unbounded", .unbounded => true
     | _, _ => false
   let limited := o.limitNs.isSome
-  let cause (k : String) : String := if limited && baselineRight then "milp-limit-status-not-read:" ++ k else k
+  let statusIgnored := limited && baselineRight && (rawStatus == "interrupted" || rawStatus == "feasible")
+  let viol (k : String) (d : List Sexp) : Sexp :=
+    if statusIgnored then SolveOracle.viol "milp-limit-status-not-read" (.atom k :: .atom rawStatus :: d) else SolveOracle.viol k d
+  let cause (k : String) : String := k
   if gapInvalid o.gap then
     match r with
     | .err _ => okS [.atom "invalid-option-rejected"]
@@ -285,7 +294,9 @@ def checkShadow (lm : LinModel (Ext Rat)) (r : ImplRes (Ext Rat)) : Sexp :=
       | (i, lr, row) :: rest, k =>
         if lr.name == "" then go rest k else
         match imGet s.shadow lr.name with
-        | none => viol "named-row-without-shadow-price" [.str lr.name]
+        | none =>
+          -- a constant row (`0 ⋈ rhs`) is removed by the compiler: no row, no price (not demanded by the property)
+          if row.coeffs.all (· == 0) then go rest k else viol "named-row-without-shadow-price" [.str lr.name]
         | some (.fin got) =>
           match sensitivity p v0 i with
           | none => okS [.atom "skipped", .atom "kink-within-eps"]
@@ -300,6 +311,42 @@ def checkShadow (lm : LinModel (Ext Rat)) (r : ImplRes (Ext Rat)) : Sexp :=
     go rows 0
   | _, .ok _ _ => okS [.atom "skipped", .atom "no-optimum"]
   | _, _ => okS [.atom "skipped", .atom "no-solution"]
+
+def contBounds (lm : LinModel (Ext Rat)) (name : String) : Option (Ext Rat × Ext Rat) :=
+  match lm.domain.find? (·.name == name) with
+  | some d =>
+    match d.ty with
+    | .real lo hi | .nnreal lo hi => some (lo, hi)
+    | _ => none
+  | none => none
+
+/-- signature of the derived-bound interaction: the compiler tightened the domain of a variable and the tightened
+bound is ACTIVE at the (unique) optimum of the source LP, so the solver sees an extra active constraint. -/
+def derivedBoundActive (src comp : LinModel (Ext Rat)) : Bool :=
+  match ofLinModel src with
+  | .error _ => false
+  | .ok p =>
+    match (solveCont p).verdict with
+    | .optimal x _ =>
+      (src.vars.zip x).any fun (name, xv) =>
+        match contBounds src name, contBounds comp name with
+        | some (lo, hi), some (lo', hi') =>
+          -- "active" within 1e-6: bound propagation rounds outwards, the derived bound sits ~1e-9 off the vertex
+          let near (b : Ext Rat) : Bool := match b with | .fin q => close q xv | _ => false
+          (!(Ext.eq lo lo') && near lo') || (!(Ext.eq hi hi') && near hi')
+        | _, _ => false
+    | _ => false
+
+/-- compile path: `src` is the LP the user wrote, `comp` the LinearModel the solver saw (derived bounds baked into the
+domains).  A wrong price with a derived bound active at the optimum is the derived-bound interaction (known finding). -/
+def checkShadowCompiled (src comp : LinModel (Ext Rat)) (r : ImplRes (Ext Rat)) : Sexp :=
+  let a := checkShadow src r
+  match a with
+  | .list (.atom "violation" :: .atom kind :: rest) =>
+    if (kind == "shadow-price-wrong-value" || kind == "shadow-price-wrong-sign" || kind == "inactive-row-nonzero-shadow-price")
+        && derivedBoundActive src comp then viol "derived-bound-active-at-optimum" (.atom kind :: rest)
+    else a
+  | _ => a
 
 end SolveOracle
 end Rooc
